@@ -74,7 +74,7 @@ def model_decls(units):
 # ---------------------------------------------------------------- (a) API-built constant tables
 def api_table(rng):
     from psyclone.psyir.symbols import SymbolTable, DataSymbol, INTEGER_TYPE, ScalarType, ArrayType
-    from psyclone.psyir.nodes import Reference, Literal, BinaryOperation
+    from psyclone.psyir.nodes import Reference, Literal, BinaryOperation, IntrinsicCall
     n = rng.randint(2, 6)
     names = [f"p{i}" for i in range(n)]
     rng.shuffle(names)
@@ -92,7 +92,7 @@ def api_table(rng):
             cand = [x for x in names if x != nm]
         deps = [d for d in cand if rng.random() < 0.35]
         bc = [x for x in cand if x in scal]
-        kind = rng.choice(bc) if bc and rng.random() < 0.15 else None
+        kind = rng.choice(bc) if bc and rng.random() < 0.3 else None
         bound = rng.choice(bc) if bc and nm not in scal and rng.random() < 0.3 else None
         spec.append((nm, deps, kind, bound))
         syms[nm] = DataSymbol(nm, INTEGER_TYPE, is_constant=True, initial_value=Literal("1", INTEGER_TYPE))
@@ -102,9 +102,14 @@ def api_table(rng):
         if bound:
             dt = ArrayType(dt, [Reference(syms[bound])])
         s.datatype = dt
-        expr = Literal("1", INTEGER_TYPE)
+        # initial value with or without Literal nodes (bare references / intrinsic call on a reference)
+        nolit = bool(deps) and rng.random() < 0.5
+        expr = None if nolit else Literal("1", INTEGER_TYPE)
         for d in deps:
-            expr = BinaryOperation.create(BinaryOperation.Operator.ADD, expr, Reference(syms[d]))
+            ref = Reference(syms[d])
+            if nolit and rng.random() < 0.3:
+                ref = IntrinsicCall.create(IntrinsicCall.Intrinsic.ABS, [ref])
+            expr = ref if expr is None else BinaryOperation.create(BinaryOperation.Operator.ADD, expr, ref)
         s.initial_value = expr
         table.add(s)
     if rng.random() < 0.4:
@@ -280,6 +285,11 @@ def check_merge(chk, n):
 
 
 # ---------------------------------------------------------------- (b) generated programs
+def directives(src):
+    """`!@rename <name>` lines at the top of a corpus file: symbol-table edits applied after reading"""
+    return [ln.split()[1].lower() for ln in src.split("\n") if ln.startswith("!@rename ")]
+
+
 def run_program(src, hist_seed, with_hist):
     """-> dict(status, text, units=[(unit, ids, rows, is_module, real_order)], hist, compile)"""
     from psyclone.psyir.frontend.fortran import FortranReader
@@ -295,9 +305,12 @@ def run_program(src, hist_seed, with_hist):
         res["status"] = "reader-refused"
         res["detail"] = f"{type(e).__name__}: {str(e)[:200]}"
         return res
+    for nm in directives(src):
+        if R.rename_constant(psyir, random.Random(0), name=nm):
+            res["hist"].append("rename:" + nm)
     if with_hist:
         try:
-            res["hist"] = R.apply_history(psyir, random.Random(hist_seed))
+            res["hist"] = res["hist"] + R.apply_history(psyir, random.Random(hist_seed))
         except Exception as e:
             res["status"] = "transformation-crashed"
             res["detail"] = f"{type(e).__name__}: {str(e)[:200]}"
